@@ -231,7 +231,7 @@ Post ==
               zerr == fr.z /\ (fr.gz \in {"corrupt", "trunc", "na"} \/ fr.nb = 0 \/ (fr.gz = "bomb" /\ capped))
               dv   == IF fr.z /\ fr.gz = "bomb" /\ ~capped THEN devs \cup {"unboundedInflate"} ELSE devs
               a2   == IF fr.k \in {"CMD", "RESP"} /\ ~zerr THEN a1 + OutU(fr) ELSE a1   \* json decode
-              jerr == fr.k \in {"CMD", "RESP"} /\ fr.pay \in {"empty", "bad"} /\ Mode = "hostile"
+              jerr == fr.k \in {"CMD", "RESP"} /\ fr.pay \in {"empty", "bad", "wrong"} /\ Mode = "hostile"   \* json.Unmarshal into CommandPacket
           IN IF zerr \/ jerr
              THEN Upd([rd EXCEPT !.ph = "Err"], pos, decoded, a2, dv, Append(outs, "Error"), hist) /\ EmitRead("Error")
              ELSE /\ Upd(IF Mode = "hostile" THEN [rd EXCEPT !.ph = "Dispatch"] ELSE Idle, pos,
